@@ -120,6 +120,16 @@ def analyse_recurrence(sw: SaviSweep):
     return out
 
 
+def is_zero_like(t) -> bool:
+    from ..terms import ZERO
+    return t == ZERO or (isinstance(t, tuple) and t and t[0] == "app" and t[1] in ("zeros", "zeros_like"))
+
+
+def is_permutation(t) -> bool:
+    """a term that is a permutation of 0..n-1 by construction"""
+    return isinstance(t, tuple) and bool(t) and t[0] == "app" and t[1].split(".")[-1] in ("permutation", "argsort")
+
+
 def perm_rewrite(t):
     """p[argsort(p)[m]] -> m for any term p."""
     if not isinstance(t, tuple) or not t:
@@ -133,6 +143,11 @@ def perm_rewrite(t):
                     m[a] = na
         return subst(t, m) if m else t
     t2 = tuple(perm_rewrite(x) if isinstance(x, tuple) else x for x in t)
+    # zeros.at[p].set(arange(len(p))) is the inverse of a permutation p, i.e. argsort(p)
+    if t2[0] == "scatter" and len(t2) == 4 and t2[1] == ("const", 0) or (t2[0] == "scatter" and len(t2) == 4 and is_zero_like(t2[1])):
+        p_, val = t2[2], t2[3]
+        if val == ("app", "arange", (("app", "len", (p_,)),)) and is_permutation(p_):
+            return ("app", "argsort", (p_,))
     if t2[0] == "elem" and len(t2[2]) == 1:
         p, i = t2[1], t2[2][0]
         if i[0] == "elem" and len(i[2]) == 1 and i[1] == ("app", "argsort", (p,)):
